@@ -127,6 +127,6 @@ def compare(rec):
     return None
 
 MANIFEST = {
- "text": "failedImpl <-> FailedSpec for every (error, options, counts) is a Lean theorem (C08_verdict, C08_total, C08_verdict_fail, C08_share over Q, C08_cli, C08_no_failures_pass); the model is tied to run.Result.Failed by a differential check on every run (thresholds +-1, zero-iteration runs, random tuples) and the pre-repair model's counterexamples (division by zero, truncation) are kernel-checked and replayed on the code. Regenerated: the closure of runCmdExecute (cmd_execute_flags/_file/_concurrency/_refused/_run_errors: options from their own flags, refusals before anything runs, the result's own error else a fresh one iff failed else nil) and profiling start/stop (profiling_stop_twice: a stale profile file cannot fail a later command, D20).",
+ "text": "failedImpl <-> FailedSpec for every (error, options, counts) is a Lean theorem (C08_verdict, C08_total, C08_verdict_fail, C08_share over Q, C08_cli, C08_no_failures_pass); the model is tied to run.Result.Failed by a differential check on every run (thresholds +-1, zero-iteration runs, random tuples) and the pre-repair model's counterexamples (division by zero, truncation) are kernel-checked and replayed on the code. Regenerated: the closure of runCmdExecute (cmd_execute_flags/_file/_concurrency/_refused/_run_errors: options from their own flags, refusals before anything runs, the result's own error else a fresh one iff failed else nil) and profiling start/stop (profiling_stop_twice: a stale profile file cannot fail a later command, D20). F1.execute is regenerated (RefineC08X): the profiles are stopped exactly once after the command, the result is an error iff the command or the stop failed; the signal goroutine cancels on the first signal and exits only on the second.",
  "note": "Trusted: Lean kernel + propext/Classical.choice/Quot.sound; the hand-written model, tied by sampling; uint64 overflow and negative max-failures-rate outside the model.",
  "technique": "Lean 4 theorem (decision logic stated outright) + model/implementation correspondence check; refinement of the regenerated command closure (MiniGo)"}
